@@ -15,10 +15,9 @@ ORACLE_RULE = ("C08: random sets of 1..4 members (all 26 indicator kinds + Amorp
 ASSUMPTIONS = [
     "TZ=UTC for this check (C18 owns time zones); naive timestamps at second resolution",
     "member names are distinct and no member keeps a default-named helper series under another member's name on the same candles (NoCollision; C13 owns collisions)",
-    "member timeframes are multiples of the Hexital timeframe when both are given; gap filling on a Hexital timeframe is combined only "
-    "with members that have no timeframe of their own (the Hexital fills the base buckets before a member timeframe collapses them, so "
-    "'the same stream' is not well defined there); a lifespan IS combined with member timeframes - the construction-time difference it "
-    "exposes is the open known finding C08-lifespan-member-at-construction",
+    "every combination of Hexital-level timeframe / fill / Heikin-Ashi / lifespan with member timeframes is generated (member managers are built "
+    "from the candles as given since fix 3f78fc6); members registered LATER through add_indicator only on a Hexital without timeframe and "
+    "lifespan of its own (their manager is built from what the default manager holds then, which is everything only in that case)",
     "cases whose standalone twin raises (RSI without losses, STOCH on a flat window, VWMA on zero volume ...) are skipped: C09 owns totality",
     "an analysis argument called 'indicator' is passed through 'args' in the dict form (it cannot sit next to the dict's own 'indicator' key)",
     "a library call that does not return within 5 s is reported as diverged (watchdog)",
